@@ -1482,4 +1482,25 @@ theorem last_split {c : Byte} : ∀ {l : List Byte}, c ∈ l → ∃ p r, l = p 
       exact ⟨[], l, rfl, hin⟩
 
 
+/-- two C strings agree up to case or have a first pair that differs after `lowerB` (a terminator may be one of the two) -/
+theorem first_diff_cstr_lower : ∀ (l1 l2 : List Byte), 0#8 ∉ l1 → 0#8 ∉ l2 →
+    l1.map lowerB = l2.map lowerB ∨ ∃ p1 p2 x y r1 r2, l1 ++ [0#8] = p1 ++ x :: r1 ∧ l2 ++ [0#8] = p2 ++ y :: r2 ∧
+      p1.map lowerB = p2.map lowerB ∧ lowerB x ≠ lowerB y ∧ 0#8 ∉ p1
+  | [], [], _, _ => Or.inl rfl
+  | [], b :: l2, _, h2 => Or.inr ⟨[], [], 0#8, b, [], l2 ++ [0#8], rfl, rfl, rfl,
+      fun e => h2 (by have := (lowerB_eq_zero (a := b)).mp (by rw [← e]; decide); simp [this]), by simp⟩
+  | a :: l1, [], h1, _ => Or.inr ⟨[], [], a, 0#8, l1 ++ [0#8], [], rfl, rfl, rfl,
+      fun e => h1 (by have := (lowerB_eq_zero (a := a)).mp (by rw [e]; decide); simp [this]), by simp⟩
+  | a :: l1, b :: l2, h1, h2 => by
+    by_cases hab : lowerB a = lowerB b
+    · rcases first_diff_cstr_lower l1 l2 (fun e => h1 (by simp [e])) (fun e => h2 (by simp [e])) with e | ⟨p1, p2, x, y, r1, r2, e1, e2, hp, hxy, h0⟩
+      · exact Or.inl (by simp [hab, e])
+      · refine Or.inr ⟨a :: p1, b :: p2, x, y, r1, r2, by simp [e1], by simp [e2], by simp [hab, hp], hxy, ?_⟩
+        intro hm; simp only [List.mem_cons] at hm
+        rcases hm with hm | hm
+        · exact h1 (by simp [hm])
+        · exact h0 hm
+    · exact Or.inr ⟨[], [], a, b, l1 ++ [0#8], l2 ++ [0#8], rfl, rfl, rfl, hab, by simp⟩
+
+
 end Igris.C08
